@@ -269,6 +269,10 @@ impl UnitRunner for C01 {
     let db = if rs == (0, 0) { define_scalar("b", kind, &rv[0]) } else { define_matrix("b", kind, &rv, rs.0, rs.1) };
     let oa = s.run(&da);
     let ob = s.run(&db);
+    // the same operands once more as mutable variables (a mutable variable evaluates to a reference to its cell)
+    let dma = format!("~{}", if ls == (0, 0) { define_scalar("ma", kind, &lv[0]) } else { define_matrix("ma", kind, &lv, ls.0, ls.1) });
+    let dmb = format!("~{}", if rs == (0, 0) { define_scalar("mb", kind, &rv[0]) } else { define_matrix("mb", kind, &rv, rs.0, rs.1) });
+    let mutable_ok = s.run(&dma).is_value() && s.run(&dmb).is_value();
     let (ca, cb) = match (oa.value(), ob.value()) {
       (Some(a), Some(b)) => (a.clone(), b.clone()),
       _ => {
@@ -347,12 +351,13 @@ impl UnitRunner for C01 {
         if let (Some(la), Some(lb)) = (&la, &lb) { spellings.push(("literals", format!("{} {} {}", la, op, lb))); }
         if let Some(lb) = &lb { spellings.push(("variable-literal", format!("a {} {}", op, lb))); }
         if let Some(la) = &la { spellings.push(("literal-variable", format!("{} {} b", la, op))); }
+        if mutable_ok { spellings.push(("mutable-variables", format!("ma {} mb", op))); spellings.push(("mutable-variable", format!("ma {} b", op))); spellings.push(("variable-mutable", format!("a {} mb", op))); }
         for (k, (form, expr)) in spellings.iter().enumerate() {
           out.evaluations += 1;
           let of = s.run(&format!("f{}x{} := {}", n, k, expr));
           let same = match (&o, &of) { (Outcome::Value(x), Outcome::Value(y)) => x == y, (Outcome::Value(_), _) | (_, Outcome::Value(_)) => false, (_, Outcome::Panic(_)) => false, _ => true };
           if same { if of.is_value() { out.nontrivial += 1; } out.count(&format!("operand_form:{}", form)); }
-          else { out.fail(format!("C01|operand-form-differs|{}:{}:{}", op, form, if ls == (0, 0) && rs == (0, 0) { "scalars" } else if ls == (0, 0) || rs == (0, 0) { "scalar-matrix" } else { "matrices" }), format!("{}; {}; r := {}", da, db, expr), format!("with variables {}, in this spelling {}", o.short(), of.short())); }
+          else { out.fail(format!("C01|operand-form-differs|{}:{}:{}", op, form, if ls == (0, 0) && rs == (0, 0) { "scalars" } else if ls == (0, 0) || rs == (0, 0) { "scalar-matrix" } else { "matrices" }), format!("{}; {}; {}r := {}", da, db, if form.contains("mutable") { format!("{}; {}; ", dma, dmb) } else { String::new() }, expr), format!("with variables {}, in this spelling {}", o.short(), of.short())); }
         }
       }
       // the same variable on both sides: every element against the scalar result of (x, x)
@@ -428,7 +433,7 @@ impl Check for C01 {
       "subject built at opt-level 1 with debug assertions and overflow checks (test-profile semantics)".into(),
       "1x1 matrices mixed with other shapes, mixed-kind operands and complex scalar arithmetic are not judged against a reference (only lifted differentially)".into(),
       "an operator a kind does not support at all (rejected on scalars) is outside the statement".into(),
-      "operand spellings: every application is repeated with both operands parenthesised and, for kinds whose literals keep their kind inside an expression (f64, bool, string, c64, u8, u16, u32), with both / either operand written as a literal; the outcome must be identical to the one with variables".into(),
+      "operand spellings: every application is repeated with both operands parenthesised and, for kinds whose literals keep their kind inside an expression (f64, bool, string, c64, u8, u16, u32), with both / either operand written as a literal, and with both / either operand held in a mutable variable (~a); the outcome must be identical to the one with variables".into(),
     ];
     rep.cov("bounds", json!({"kinds": ALL_KINDS, "shapes": shapes(tier), "assignments": na, "units": n}));
     drive_ranges(cfg, rep, range_jobs("", n, 8));
